@@ -3,7 +3,7 @@ import json
 import random
 import re
 
-from .. import fmtdrv
+from .. import fmtdrv, gen
 from .. import ref_pattern as ref
 from ..core import hexs, unhexs
 from ..gen import TYPES, uni_text, uni_char, enc_msg, u16len, ASCII_PRINT
@@ -43,6 +43,8 @@ def gen_literal(rnd, minlen=0, maxlen=8, plain=False):
 
 def gen_spec(rnd):
     w = rnd.choice([1, 2, 3, 5, 8, 10, 12, 20, 40, rnd.randint(1, 60)])
+    if rnd.random() < 0.003:
+        w = rnd.choice([255, 256, 1000, 4096, 32767, 32768, 65535, 65536, 65541, 70000, 131072])   # column widths nobody types by hand
     r = rnd.random()
     if r < 0.3:
         s = rnd.choice("<^>") + str(w)
@@ -87,6 +89,9 @@ def gen_message(rnd, attr_pool):
         if rnd.random() < 0.55:
             k = rnd.random()
             attrs[name] = uni_text(rnd, 14) if k < 0.6 else (rnd.randint(-5, 10 ** 6) if k < 0.85 else (rnd.random() < 0.5))
+            if k < 0.04:
+                # set, but to nothing: a null string (applicationVersion() when none was given), an empty one, an invalid QVariant
+                attrs[name] = rnd.choice([gen.NULLSTR, "", None])
     cat = rnd.choice([b"default", b"network", b"app.ui", b"app.ui.dialogs", b"", None, b"x"]) if rnd.random() < 0.8 else \
         "".join(rnd.choice(ASCII_PRINT) for _ in range(rnd.randint(1, 16))).encode("ascii")
     return {"type": rnd.randrange(5), "line": rnd.choice([0, 7, 42, 99999, rnd.randint(0, 10 ** 6)]),
